@@ -570,5 +570,131 @@ theorem truncInt_hasVal {s : Bool} {m : Nat} {e : Int} (h : fractNonzero (fin s 
     have hmod : m % pow2 (-e) = 0 := by simpa using h
     rw [Nat.div_mul_cancel (Nat.dvd_of_mod_eq_zero hmod)]; simp
 
+/-! ### `cmpIntFloat`: the exact comparison of an integer with a double
+
+An integer is carried as the (not necessarily canonical) datum `fin (i < 0) |i| 0`, whose exact
+value is `i`; `cmpIntFloat i f` is `OrderedFloat`'s order between that datum and `f`, so every
+order law of `ocmp` (a total preorder on ALL data, canonical or not) transfers. -/
+
+/-- the integer `i` as a finite-double datum of exact value `i` (not rounded, not canonical) -/
+def exactInt (i : Int) : F64 := fin (decide (i < 0)) i.natAbs 0
+
+theorem exactInt_hasVal (i : Int) : HasVal (exactInt i) i 0 := by
+  simp [exactInt, HasVal, smant_of_int]
+
+theorem val_exactInt (i : Int) : val? (exactInt i) = some (i : Dyadic) := by
+  rw [hasVal_val (exactInt_hasVal i)]; rfl
+
+theorem ocmp_exactInt (a b : Int) : ocmp (exactInt a) (exactInt b) = compare a b :=
+  ocmp_of_hasVal (exactInt_hasVal a) (exactInt_hasVal b)
+
+theorem icompare_lt {a b : Int} (h : a < b) : compare a b = .lt := by
+  rw [Int.compare_eq_ite_lt, if_pos h]
+
+theorem icompare_gt {a b : Int} (h : b < a) : compare a b = .gt := by
+  rw [Int.compare_eq_ite_lt, if_neg (by omega), if_pos h]
+
+theorem icompare_self (a : Int) : compare a a = .eq := by simp
+
+/-- comparing `i` with `±(q·d + r)/d` (`0 ≤ r < d`): first with the truncated quotient `±q`, then
+zero with the sign of the remainder -/
+theorem compare_trunc_frac (i : Int) (s : Bool) (d q r : Nat) (hr : r < d) :
+    (compare i (smant s q)).then (if (r != 0) = true then (if s = true then .gt else .lt) else .eq) =
+      compare (i * (d : Int)) (smant s (d * q + r)) := by
+  have hdq : ((d * q + r : Nat) : Int) = (q : Int) * d + r := by
+    rw [Int.natCast_add, Int.natCast_mul, Int.mul_comm]
+  have hdpos' : (0 : Int) ≤ d := by omega
+  cases s
+  · simp only [smant_false, hdq]
+    rcases Int.lt_trichotomy i q with h | h | h
+    · have h1 := Int.mul_le_mul_of_nonneg_right (show i + 1 ≤ q by omega) hdpos'
+      rw [Int.add_mul, Int.one_mul] at h1
+      rw [icompare_lt h, icompare_lt (by omega)]; rfl
+    · subst h
+      rw [icompare_self]
+      by_cases hr0 : r = 0
+      · subst hr0; simp
+      · have : (r != 0) = true := by simpa using hr0
+        rw [this, icompare_lt (by omega)]; rfl
+    · have h1 := Int.mul_le_mul_of_nonneg_right (show (q : Int) + 1 ≤ i by omega) hdpos'
+      rw [Int.add_mul, Int.one_mul] at h1
+      rw [icompare_gt h, icompare_gt (by omega)]; rfl
+  · simp only [smant_true, hdq]
+    rcases Int.lt_trichotomy i (-(q : Int)) with h | h | h
+    · have h1 := Int.mul_le_mul_of_nonneg_right (show i + 1 ≤ -(q : Int) by omega) hdpos'
+      rw [Int.add_mul, Int.one_mul, Int.neg_mul] at h1
+      rw [icompare_lt h, icompare_lt (by omega)]; rfl
+    · subst h
+      rw [icompare_self, Int.neg_mul]
+      by_cases hr0 : r = 0
+      · subst hr0; simp
+      · have : (r != 0) = true := by simpa using hr0
+        rw [this, icompare_gt (by omega)]; rfl
+    · have h1 := Int.mul_le_mul_of_nonneg_right (show -(q : Int) + 1 ≤ i by omega) hdpos'
+      rw [Int.add_mul, Int.one_mul, Int.neg_mul] at h1
+      rw [icompare_gt h, icompare_gt (by omega)]; rfl
+
+theorem cmpIntFloat_fin (i : Int) (s : Bool) (m : Nat) (e : Int) :
+    cmpIntFloat i (fin s m e) = cmpFin (decide (i < 0)) i.natAbs 0 s m e := by
+  by_cases he : e ≥ 0
+  · rw [cmpFin_scale _ _ _ _ _ _ 0 (Int.le_refl 0) he]
+    simp only [cmpIntFloat, truncInt, fractNonzero, if_pos he, scaled, smant_of_int, Int.sub_zero,
+      Int.sub_self, pow2_zero]
+    simp
+  · have he' : e < 0 := by omega
+    rw [cmpFin_scale _ _ _ _ _ _ e (by omega) (Int.le_refl e)]
+    simp only [cmpIntFloat, truncInt, fractNonzero, if_neg he, scaled, smant_of_int, Int.sub_self,
+      pow2_zero, Int.zero_sub, Int.natCast_one, Int.mul_one]
+    have hdpos : 0 < pow2 (-e) := pow2_pos _
+    have h := compare_trunc_frac i s (pow2 (-e)) (m / pow2 (-e)) (m % pow2 (-e))
+      (Nat.mod_lt _ hdpos)
+    rw [Nat.div_add_mod] at h
+    exact h
+
+/-- `cmp_int_float` is `OrderedFloat`'s order between the exact integer and the double -/
+theorem cmpIntFloat_eq_ocmp (i : Int) (f : F64) : cmpIntFloat i f = ocmp (exactInt i) f := by
+  cases f with
+  | nan => simp [cmpIntFloat, exactInt, ocmp, pcmp, isNaN]
+  | inf b => cases b <;> simp [cmpIntFloat, exactInt, ocmp, pcmp]
+  | fin s m e => rw [cmpIntFloat_fin]; rfl
+
+/-- an integer compares with a finite double by exact value -/
+theorem cmpIntFloat_eq_dcmp (i : Int) {f : F64} {y : Dyadic} (hf : val? f = some y) :
+    cmpIntFloat i f = dcmp (i : Dyadic) y := by
+  rw [cmpIntFloat_eq_ocmp]; exact ocmp_eq_dcmp (val_exactInt i) hf
+
+/-- `Equal` only when the double's exact value is that integer -/
+theorem cmpIntFloat_eq_hasVal {i : Int} {f : F64} (h : cmpIntFloat i f = .eq) : HasVal f i 0 :=
+  ocmp_eq_hasVal (exactInt_hasVal i) (by rw [← cmpIntFloat_eq_ocmp]; exact h)
+
+/-- the comparison as src/data.rs writes it, with the two range guards that keep `as i64` from
+saturating (`f ≥ 2^63`, i.e. `f.trunc() ≥ 2^63`: `Less`; `f < −2^63`, i.e. `f.trunc() < −2^63`
+because every double of that size is integral: `Greater`) -/
+def cmpIntFloatGuarded (i : Int) : F64 → Ordering
+  | nan => .lt
+  | inf s => if s then .gt else .lt
+  | fin s m e =>
+    if i64Max < truncInt s m e then .lt
+    else if truncInt s m e < i64Min then .gt
+    else (compare i (toI64 (fin s m e))).then
+      (if fractNonzero (fin s m e) then (if s then .gt else .lt) else .eq)
+
+/-- for every integer of the i64 range the guards change nothing -/
+theorem cmpIntFloat_eq_guarded {i : Int} (hi : i64Min ≤ i ∧ i ≤ i64Max) (f : F64) :
+    cmpIntFloat i f = cmpIntFloatGuarded i f := by
+  cases f with
+  | nan => rfl
+  | inf b => rfl
+  | fin s m e =>
+    simp only [cmpIntFloat, cmpIntFloatGuarded, toI64]
+    generalize truncInt s m e = t
+    by_cases h1 : i64Max < t
+    · rw [if_pos h1, Int.compare_eq_ite_lt, if_pos (by omega)]; rfl
+    · rw [if_neg h1]
+      by_cases h2 : t < i64Min
+      · rw [if_pos h2, Int.compare_eq_ite_lt, if_neg (by omega), if_pos (by omega)]; rfl
+      · have h3 : ¬ t > i64Max := by omega
+        rw [if_neg h2, if_neg h2, if_neg h3]
+
 end F64
 end Ag
